@@ -25,6 +25,10 @@ import Bng.Model.KeyEnc
     percpu nat|qos|antispoof                              => err percpu | ok
     x qos|antispoof|dhcp|nat|fnv|wg name=value …          => name=hex …
     kf cidraw <options hex>                               => c=<hex|none>
+    kf cid <cid hex> <extra>                              => go=<MakeCircuitIDKey> c=<key the program looks up|none>
+    kf mac <6B>                                           => go=<MACToUint64 LE> c.dhcp=<…> c.antispoof=<…>
+    kf vlan <s> <c|-> <pcp1> <dei1> <pcp2> <dei2>         => go=<key written by AddVLANSubscriber> c=<key looked up>
+    kf ip <4B> | kf fnv <hex> | kf alg <port> <proto>     => go=<…> [c=<…>]
 -/
 namespace Bng.Drv.LayoutDrv
 open Bng Bng.Drv Bng.Layout Bng.KeyEnc Bng.Gen.Layout
@@ -363,6 +367,83 @@ def apiFailure (r : LineResult) (impl : String) : LineResult :=
     { r with viols := [("size", "none", s!"a map call of the real manager was rejected by cilium: {impl}")] }
   else { r with viols := [] }
 
+/-! ## the real Go key derivations on systematic inputs (`kf …`)
+
+  The monitor judges the IMPLEMENTATION's answers twice: the key the real Go function produced must be the
+  key the natively compiled program derives for the same input (where a kernel side exists), and it must be
+  the key of the model the all-input theorems of Spec/C06 are about — a Go function that drifts from the
+  proved model is a `key` verdict with the input as the failing input, not only a DIFF. -/
+
+def kfCidOpts (cid : List UInt8) (extra : Nat) : List UInt8 :=
+  let o := [53, 1, 1, 82, UInt8.ofNat (cid.length + 2 + extra), 1, UInt8.ofNat cid.length] ++ cid ++
+    List.replicate extra 0 ++ [255]
+  o ++ List.replicate (80 - o.length) 0
+
+def goVsModel (what input got want : String) : List Verdict :=
+  if got == want then [] else
+    [("key", "none", s!"{what}: the real Go derivation differs from the proved model on input {input}: go={got} model={want}")]
+
+def goVsC (what input got c : String) : List Verdict :=
+  if got == c then [] else
+    [("key", "none", s!"{what}: Go and the kernel program derive different keys for input {input}: go={got} c={c}")]
+
+def doKf (toks : List String) (impl : String) : LineResult :=
+  match toks with
+  | ["kf", "cid", ch, ex] =>
+    match parseHexBytes ch, ex.toNat? with
+    | some cid, some extra =>
+      let go := hexOf (circuitKeyGo cid)
+      let c := match circuitKeyC (kfCidOpts cid extra) with | some k => hexOf k | none => "none"
+      -- the program recognises the circuit-id (first branch of extract_circuit_id_fixed) exactly in this range
+      let recognised := decide (0 < cid.length ∧ cid.length ≤ 32 ∧ 4 ≤ cid.length + 2 + extra)
+      { modelObs := s!"go={go} c={c}",
+        viols := goVsModel "MakeCircuitIDKey" ch (tok impl "go") go ++
+          (if recognised then goVsC "circuit-id key (circuit_id_subscribers)" ch (tok impl "go") (tok impl "c") else []) }
+    | _, _ => { modelObs := "badop" }
+  | ["kf", "mac", mh] =>
+    match (parseHexBytes mh).bind mac6 with
+    | some (m0, m1, m2, m3, m4, m5) =>
+      let go := hexOf (u64KeyBytes (macU64GoLoop [m0, m1, m2, m3, m4, m5]))
+      let cd := hexOf (u64KeyBytes (macU64CLoop m0 m1 m2 m3 m4 m5))
+      let ca := hexOf (u64KeyBytes (macU64Shift m0 m1 m2 m3 m4 m5))
+      { modelObs := s!"go={go} c.dhcp={cd} c.antispoof={ca}",
+        viols := goVsModel "MACToUint64" mh (tok impl "go") go ++
+          goVsC "MAC key (subscriber_pools)" mh (tok impl "go") (tok impl "c.dhcp") ++
+          goVsC "MAC key (subscriber_bindings)" mh (tok impl "go") (tok impl "c.antispoof") }
+    | none => { modelObs := "badop" }
+  | ["kf", "vlan", ss, cs, p1, d1, p2, d2] =>
+    match ss.toNat?, p1.toNat?, d1.toNat?, p2.toNat?, d2.toNat? with
+    | some s, some p1, some d1, some p2, some d2 =>
+      let cTag := cs.toNat?
+      let go := hexOf (vlanKeyGo s (cTag.getD 0))
+      let c := hexOf (vlanKeyC (tciBytes p1 d1 s) (cTag.map fun c => tciBytes p2 d2 c))
+      let inp := s!"s={ss} c={cs} pcp/dei={p1}/{d1},{p2}/{d2}"
+      { modelObs := s!"go={go} c={c}",
+        viols := goVsModel "VLANKey" inp (tok impl "go") go ++ goVsC "VLAN key (vlan_subscriber_pools)" inp (tok impl "go") (tok impl "c") }
+    | _, _, _, _, _ => { modelObs := "badop" }
+  | ["kf", "ip", ih] =>
+    match (parseHexBytes ih).bind ip4 with
+    | some (a, b, c, d) =>
+      let go := hexOf (ipFieldGo a b c d)
+      { modelObs := s!"go={go}", viols := goVsModel "IPToUint32" ih (tok impl "go") go }
+    | none => { modelObs := "badop" }
+  | ["kf", "fnv", ch] =>
+    match parseHexBytes ch with
+    | some cid =>
+      let go := hexOf (leBytes 8 (fnv1aGo cid))
+      { modelObs := s!"go={go}", viols := goVsModel "HashCircuitID" ch (tok impl "go") go }
+    | none => { modelObs := "badop" }
+  | ["kf", "alg", ps, qs] =>
+    match ps.toNat?, qs.toNat? with
+    | some port, some proto =>
+      let go := hexOf (leBytes 4 (algKeyGo port proto))
+      let c := hexOf (leBytes 4 (algKeyC (UInt8.ofNat (port / 256)) (UInt8.ofNat (port % 256)) proto))
+      let inp := s!"port={ps} proto={qs}"
+      { modelObs := s!"go={go} c={c}",
+        viols := goVsModel "ALG key" inp (tok impl "go") go ++ goVsC "ALG key (alg_ports)" inp (tok impl "go") (tok impl "c") }
+    | _, _ => { modelObs := "badop" }
+  | _ => { modelObs := "badop" }
+
 def step (st : Unit) (toks : List String) (impl : String) : Unit × LineResult :=
   let r : LineResult := match toks with
     | ["new"] => { modelObs := "ok" }
@@ -373,11 +454,16 @@ def step (st : Unit) (toks : List String) (impl : String) : Unit × LineResult :
     | "x" :: "antispoof" :: rest => apiFailure (xAntispoof (kvOf rest) impl) impl
     | "x" :: "dhcp" :: rest => apiFailure (xDhcp (kvOf rest) impl) impl
     | "x" :: "nat" :: rest => apiFailure (xNat (kvOf rest) impl) impl
-    | "x" :: "fnv" :: rest => xFnv (kvOf rest)
-    | "x" :: "wg" :: rest => xWg (kvOf rest)
+    | "x" :: "fnv" :: rest =>
+      let r := xFnv (kvOf rest)
+      { r with viols := if impl.startsWith "go." then goVsModel "HashCircuitID/MACToUint64 (circuit_id_map entry)" (" ".intercalate rest) impl r.modelObs else [] }
+    | "x" :: "wg" :: rest =>
+      let r := xWg (kvOf rest)
+      { r with viols := if impl.startsWith "go." then goVsModel "allowedDestKey (walled-garden entry)" (" ".intercalate rest) impl r.modelObs else [] }
     | ["kf", "cidraw", o] => match parseHexBytes o with
       | some opts => { modelObs := match circuitKeyC opts with | some k => s!"c={hexOf k}" | none => "c=none" }
       | none => { modelObs := "badop" }
+    | "kf" :: _ => doKf toks impl
     | _ => { modelObs := "badop" }
   (st, r)
 
